@@ -263,7 +263,12 @@ def end_to_end(ctx):
                     uc.emu.pe.save_namespace(e.stage.dir, ns)
                     e.stage.emu.reload()
                     for skind, spath in (('file-in-group', '/1999.01.01/README.txt'), ('dir-in-root', '/' + ['old', 'lost+found', '1999.01.01.bak'][(idx + page) % 3]),
-                                         ('file-in-root', '/notes.txt')):
+                                         ('file-in-root', '/notes.txt'),
+                                         # a file named like a backup of the window with something appended is no backup
+                                         ('suffixed-backup-name', '/%s/%s.tar.gpg%s' % (
+                                             sorted(g_ for g_ in os.listdir(e.w.root) if store.GROUP_RE.match(g_))[-1],
+                                             sorted(b_ for b_ in os.listdir(os.path.join(e.w.root, sorted(g_ for g_ in os.listdir(e.w.root) if store.GROUP_RE.match(g_))[-1]))
+                                                    if store.BACKUP_RE.match(b_))[-1], ['.bak', '~', '.part'][(idx + page) % 3]))):
                         ns = e.stage.emu.namespace(prov)
                         if skind == 'dir-in-root':
                             ns.mkdir(e.CLOUD_ROOT + spath)
